@@ -942,6 +942,42 @@ class FuncAnalysis:
         base = self.expr(e.value, env)
         return self.getattr_refs(base, e.attr, e, env, recv_node=e.value)
 
+    def literal_strings(self, e):
+        """the finite set of strings an expression can denote: a string literal, or a name bound only as the target (or a component of
+        the tuple target) of `for` loops over literal displays of string literals / of tuples with a string literal in that position"""
+        if isinstance(e, ast.Constant) and isinstance(e.value, str):
+            return {e.value}
+        if not isinstance(e, ast.Name):
+            return None
+        out = set()
+        bound_elsewhere = False
+        for n in ast.walk(self.f.node):
+            if isinstance(n, ast.For):
+                tgt = n.target
+                pos = None
+                if isinstance(tgt, ast.Name) and tgt.id == e.id:
+                    pos = -1
+                elif isinstance(tgt, ast.Tuple):
+                    for i, t_ in enumerate(tgt.elts):
+                        if isinstance(t_, ast.Name) and t_.id == e.id:
+                            pos = i
+                if pos is None:
+                    continue
+                if not isinstance(n.iter, (ast.Tuple, ast.List)):
+                    return None
+                for el in n.iter.elts:
+                    c = el if pos == -1 else (el.elts[pos] if isinstance(el, ast.Tuple) and len(el.elts) > pos else None)
+                    if not (isinstance(c, ast.Constant) and isinstance(c.value, str)):
+                        return None
+                    out.add(c.value)
+            elif isinstance(n, (ast.Assign, ast.AugAssign, ast.AnnAssign, ast.NamedExpr)):
+                tg = n.targets if isinstance(n, ast.Assign) else [n.target]
+                if any(isinstance(x, ast.Name) and x.id == e.id for t_ in tg for x in ast.walk(t_)):
+                    bound_elsewhere = True
+        if bound_elsewhere or not out or e.id in self.f.all_params():
+            return None
+        return out
+
     def getattr_refs(self, base, attr, node, env, recv_node=None):
         if not base:
             return frozenset()
@@ -1258,6 +1294,15 @@ class FuncAnalysis:
             if n == "getattr" and len(call.args) >= 2 and isinstance(call.args[1], ast.Constant):
                 self.an.resolved_calls += 1
                 return self.getattr_refs(pos[0][2], call.args[1].value, call, env, recv_node=call.args[0])
+            if n == "setattr" and len(call.args) == 3 and not call.keywords:
+                names = self.literal_strings(call.args[1])
+                if names is None:
+                    raise AnalysisError(f"{self.f.fq}: setattr() with a name that is not a literal (or a loop variable over literals) "
+                                        "defeats the effect model")
+                self.an.resolved_calls += 1
+                for nm in sorted(names):
+                    self.effect(pos[0][2], (nm,), "attr", call, env, stored=pos[2][2])
+                return frozenset()
             if n in ("setattr", "exec", "eval", "vars", "delattr"):
                 raise AnalysisError(f"{self.f.fq}: dynamic feature {n}() defeats the effect model")
             if n in ("super",):
